@@ -690,7 +690,13 @@ impl rustc_driver::Callbacks for Cb {
                         if vi > 0 {
                             out.push(',');
                         }
-                        let _ = write!(out, "{{\"name\":{},\"fields\":[", esc(v.name.as_str()));
+                        // explicit discriminant values (`enum E { A = 2, B = 3 }`): `discriminant(x)` / `x as u32` yield these, not the index
+                        let dval = if def.is_enum() {
+                            format!("{}", def.discriminant_for_variant(tcx, rustc_abi::VariantIdx::from_usize(vi)).val)
+                        } else {
+                            "null".to_string()
+                        };
+                        let _ = write!(out, "{{\"name\":{},\"discr\":{},\"fields\":[", esc(v.name.as_str()), dval);
                         for (fi, f) in v.fields.iter().enumerate() {
                             if fi > 0 {
                                 out.push(',');
